@@ -51,8 +51,14 @@ def gen_sequence(rng, cands, spec):
                 sim = history.generate(rng, cands, rng.randint(8, 60), {'first': rng.choice(['get_registry', 'get_registry', 'sync', None]), 'hot': rng.choice([0.1, 0.4])})
                 key = len(model)
                 prev = [m for m in model if m['slot'] == slot]
+                # the wl_display / wl_client struct of a destroyed connection of the same side may be handed out again by
+                # malloc independently of the wl_connection itself (tier A only)
+                gone = [m['key'] for m in model if m['side'] == side and slots[m['slot']] != m['key'] and not m.get('owner_taken')]
+                owner_of = rng.choice(gone) if gone and rng.random() < 0.35 else None
+                if owner_of is not None:
+                    model[owner_of]['owner_taken'] = True
                 model.append({'key': key, 'name': streams.conn_name(len(model)), 'sim': sim, 'pos': 0, 'side': side, 'slot': slot,
-                              'reuse_of': prev[-1]['key'] if prev else None})
+                              'reuse_of': prev[-1]['key'] if prev else None, 'owner_of': owner_of})
                 slots[slot] = key
                 used[slot] = True
                 opened_now = True
@@ -62,7 +68,10 @@ def gen_sequence(rng, cands, spec):
             rec = m['sim'].hist[m['pos']]
             m['pos'] += 1
             events.append({'type': 'msg', 'slot': slot, 'key': key, 'thread': thread, 'rec': rec, 'side': m['side'], 'opened_now': opened_now,
-                           'name': m['name'], 'role': role_name(rec, m['side']) if opened_now else None, 'reuse_of': m['reuse_of'] if opened_now else None})
+                           'name': m['name'], 'role': role_name(rec, m['side']) if opened_now else None, 'reuse_of': m['reuse_of'] if opened_now else None,
+                           'owner_of': m.get('owner_of') if opened_now else None,
+                           # the user interrupted the program, typed a `wl` command that does not resume, and let it go on with gdb's own `continue`
+                           'command_before': rng.choice(['help', 'list ~ 1', 'connection', 'filter', 'matcher wl_surface']) if rng.random() < 0.08 else None})
         else:
             key = slots[slot]
             what = 'never-seen' if not used[slot] else ('known' if key is not None else 'already-closed')
@@ -80,11 +89,14 @@ def execute_shim(events, rng):
     for ev in events:
         n0, x0 = gs.mark()
         if ev['type'] == 'msg':
+            if ev.get('command_before'):
+                gs.sim.command('wl', ev['command_before'])
+                n0, x0 = gs.mark()
             if ev['opened_now']:
                 if ev['reuse_of'] is None:
-                    gs.new_connection(ev['key'], ev['side'])
+                    gs.new_connection(ev['key'], ev['side'], owner_of=ev.get('owner_of'))
                 else:
-                    gs.reuse_address(ev['key'], ev['reuse_of'], ev['side'])
+                    gs.reuse_address(ev['key'], ev['reuse_of'], ev['side'], owner_of=ev.get('owner_of'))
                 slot_key[ev['slot']] = ev['key']
             stop, exc = gs.deliver(gs.event_for(ev['key'], ev['rec'], rng, ev['thread']))
         else:
